@@ -49,6 +49,7 @@ int main(int argc, char **argv)
     if(argc < 2) { fprintf(stderr, "usage: opnharness <component>\n"); return 2; }
     std::string c = argv[1];
     if(c == "volume") return comp_volume();
+    if(c == "wopn") return comp_wopn();
     fprintf(stderr, "unknown component %s\n", c.c_str());
     return 2;
 }
